@@ -51,15 +51,26 @@ class SearchTerms:
     def __str__(self) -> str:
         """Get a String representation of this Search Term."""
         if self.method == PathSearchMethods.REGEX:
-            safe_term = "/{}/".format(self.term.replace("/", r"\/"))
+            # The delimiter cannot be escaped within the expression, so pick
+            # one which does not occur in it.
+            delim = "/"
+            for candidate in "/|_#@;:,`-+&0123456789":
+                if candidate not in self.term:
+                    delim = candidate
+                    break
+            safe_term = "{}{}{}".format(delim, self.term, delim)
         else:
-            # Replace unescaped spaces with escaped spaces
-            safe_term = r"\ ".join(
-                list(map(
-                    lambda ele: ele.replace(" ", r"\ ")
-                    , self.term.split(r"\ ")
-                ))
-            )
+            # Escape every unescaped symbol that has meaning to the parser
+            safe_term = self.term
+            for symbol in (" ", "[", "]", "(", ")", "=", "^", "$", "%", "!",
+                           "<", ">", "~", "'", '"'):
+                escaped_symbol = "\\" + symbol
+                safe_term = escaped_symbol.join(
+                    list(map(
+                        lambda ele: ele.replace(symbol, escaped_symbol)
+                        , safe_term.split(escaped_symbol)
+                    ))
+                )
 
         return (
             "["
